@@ -304,6 +304,59 @@ impl Episode {
     }
 }
 
+impl Episode {
+    /// Enter, through the public fields, the state the cipher has after consuming `2^64 - left` blocks.
+    pub fn teleport_end64(&mut self, out: &mut dyn std::io::Write, left: u64) {
+        self.k += 1;
+        let (_, _, _, _, p1) = self.c.internals();
+        self.c.set_internals((0, left, false, 0u64.wrapping_sub(left), p1));
+        let pos: u128 = ((1u128 << 64) - left as u128) * 64;
+        let e = Ev::new(self.k, "teleport").limbs("pos", pos, 5).s("res", "ok");
+        self.fin(e, out);
+    }
+}
+
+/// C11: the 2^64-block end of the 64-bit-counter variants, entered through Buffer's public fields.
+pub fn drive_end64(out: &mut dyn std::io::Write, seed: u64, thorough: bool) {
+    let mut rng = Rng::new(seed ^ 0xe64);
+    let lefts: &[u64] = if thorough { &[0, 1, 2, 3, 4, 5, 8, 9] } else { &[0, 1, 2, 4, 5] };
+    for (vi, variant) in VARIANTS.iter().enumerate() {
+        if *variant == "Ietf" {
+            continue;
+        }
+        for &left in lefts {
+            for round in 0..(if thorough { 6 } else { 2 }) {
+                let key = rng.bytes(32);
+                let nonce = rng.bytes(nonce_len(variant));
+                let mut ep = Episode::start(out, variant, &key, &nonce, "end64", true);
+                ep.teleport_end64(out, left);
+                ep.pos(out, "u128");
+                let room = left as usize * 64;
+                // first request: below, exactly at, or beyond the limit
+                let first = match (round + vi) % 4 {
+                    0 => room,
+                    1 => room + 1,
+                    2 => room.saturating_sub(1),
+                    _ => room / 2 + rng.below(3) as usize,
+                };
+                let d = pattern(&mut rng, first);
+                ep.apply(out, &d);
+                ep.pos(out, "u128");
+                ep.pos(out, "u64");
+                ep.apply(out, &pattern(&mut rng, 1));
+                ep.apply(out, &[]);
+                let d = pattern(&mut rng, room + 65);
+                ep.apply(out, &d);
+                ep.pos(out, "u128");
+                // still usable: go back and read
+                ep.seek(out, "u64", false, 70);
+                ep.apply(out, &pattern(&mut rng, 60));
+                ep.pos(out, "u16");
+            }
+        }
+    }
+}
+
 pub fn type_max(ty: &str) -> u128 {
     match ty {
         "u8" => u8::MAX as u128,
